@@ -44,7 +44,8 @@ CFG = {
         # all (actual, declared) pairs: energy vs torque, Hz vs rad/s, angle factors, half exponents
         "pairs": dict(ActL=E(0, .5, 1, 2), ActM=E(0, 1), ActT=E(-2, -1, 0), ActA=E(-1, 0, 1),
                       DeclL=E(0, 1, 2), DeclM=E(0, 1), DeclT=E(-2, -1, 0), DeclA=E(0, 1),
-                      Values={"one", "big", "zero", "nan"}, NumValues={"one", "f25", "zero", "fzero", "inf", "finf", "nan"},
+                      Values={"one", "fhuge", "minute", "zero", "nan"},
+                      NumValues={"one", "f25", "huge", "fminute", "zero", "fzero", "inf", "finf", "nan"},
                       Prefixes={"base", "kilo"}, Shapes={"scalar"}, MaxSeq=0, TupleDecls=False,
                       MaxParams=1, ResultKinds={"none"}, **NOVEC),
         # sequences of 0..3 elements (also declared element-wise) and vectors in the three systems
@@ -53,18 +54,29 @@ CFG = {
                        Values={"one", "zero"}, NumValues={"one", "zero"}, Prefixes={"base"},
                        Shapes={"seq", "vec"}, MaxSeq=3, TupleDecls=True, MaxParams=1, ResultKinds={"none"},
                        VecSystems={"cart", "cyl", "sph"}, VecValues={"one", "zero"}),
+        # results and sequence elements of extreme magnitude (finite, non-zero, outside the range of doubles)
+        "extreme_results": dict(ActL=E(0, 1), ActM=E(0), ActT=E(-1, 0), ActA=E(0),
+                                DeclL=E(0, 1), DeclM=E(0), DeclT=E(0), DeclA=E(0),
+                                Values={"one", "fhuge", "minute"}, NumValues={"one", "huge", "fminute"}, Prefixes={"base"},
+                                Shapes={"scalar"}, MaxSeq=0, TupleDecls=False, MaxParams=1,
+                                ResultKinds={"none", "dim", "same"}, **NOVEC),
+        "extreme_seqs": dict(ActL=E(0, 1), ActM=E(0), ActT=E(-1, 0), ActA=E(0),
+                             DeclL=E(0, 1), DeclM=E(0), DeclT=E(0), DeclA=E(0),
+                             Values={"one", "fhuge", "minute"}, NumValues={"one", "huge", "fminute"}, Prefixes={"base"},
+                             Shapes={"seq"}, MaxSeq=2, TupleDecls=False, MaxParams=1, ResultKinds={"none"}, **NOVEC),
         # the call protocol: two guarded parameters, call styles, checked results
         "protocol": dict(ActL=E(0, 1), ActM=E(0), ActT=E(0), ActA=E(0, 1),
                          DeclL=E(0, 1), DeclM=E(0), DeclT=E(0), DeclA=E(0),
-                         Values={"one"}, NumValues={"one", "zero"}, Prefixes={"base"},
+                         Values={"one"}, NumValues={"one", "zero", "fminute"}, Prefixes={"base"},
                          Shapes={"scalar"}, MaxSeq=0, TupleDecls=False, MaxParams=2,
                          ResultKinds={"none", "dim", "same"}, **NOVEC),
     },
     "thorough": {
         "pairs": dict(ActL=E(-2, -1, 0, .5, 1, 2), ActM=E(0, 1), ActT=E(-2, -1, -.5, 0, 1), ActA=E(-1, 0, 1),
                       DeclL=E(-1, 0, 1, 2), DeclM=E(0, 1), DeclT=E(-2, -1, 0), DeclA=E(0, 1),
-                      Values={"one", "big", "tiny", "cplx", "zero", "inf", "nan"},
-                      NumValues={"one", "neg", "f25", "big", "zero", "fzero", "inf", "finf", "ninf", "nan", "fnan"},
+                      Values={"one", "big", "tiny", "cplx", "huge", "fhuge", "minute", "fminute", "zero", "inf", "nan"},
+                      NumValues={"one", "neg", "f25", "big", "huge", "fhuge", "minute", "fminute", "zero", "fzero", "inf", "finf",
+                                 "ninf", "nan", "fnan"},
                       Prefixes={"base", "kilo", "milli"}, Shapes={"scalar"}, MaxSeq=0, TupleDecls=False,
                       MaxParams=1, ResultKinds={"none"}, **NOVEC),
         "shapes": dict(ActL=E(0, 1), ActM=E(0), ActT=E(-1, 0), ActA=E(0, 1),
@@ -79,7 +91,7 @@ CFG = {
                          ResultKinds={"none", "same"}, **NOVEC),
         "results": dict(ActL=E(-1, 0, 1, 2), ActM=E(0, 1), ActT=E(-2, 0), ActA=E(-1, 0, 1),
                         DeclL=E(1), DeclM=E(0), DeclT=E(0), DeclA=E(0),
-                        Values={"one", "zero", "nan"}, NumValues={"one", "zero"}, Prefixes={"base"},
+                        Values={"one", "fhuge", "minute", "zero", "nan"}, NumValues={"one", "fminute", "zero"}, Prefixes={"base"},
                         Shapes={"scalar"}, MaxSeq=0, TupleDecls=False, MaxParams=1,
                         ResultKinds={"dim", "same"}, **NOVEC),
     },
@@ -116,7 +128,8 @@ def _real():
             unit={"L": units.meter, "M": units.kilogram, "T": units.second, "I": units.ampere, "K": units.kelvin,
                   "N": units.mole, "J": units.candela},
             value={"one": 1, "three": 3, "neg": -7, "f25": 2.5, "big": 10**9, "tiny": sp.Rational(1, 10**6),
-                   "cplx": 1 + 2 * sp.I, "zero": 0, "fzero": 0.0, "inf": sp.oo, "finf": float("inf"), "ninf": -sp.oo,
+                   "cplx": 1 + 2 * sp.I, "huge": sp.Integer(10)**400, "fhuge": sp.Float("1e400"),
+                   "minute": sp.Rational(1, 10**400), "fminute": sp.Float("1e-330"), "zero": 0, "fzero": 0.0, "inf": sp.oo, "finf": float("inf"), "ninf": -sp.oo,
                    "nan": sp.nan, "fnan": float("nan")},
             prefix={"base": 1, "kilo": prefixes.kilo, "milli": prefixes.milli},
             system={"cart": S.CARTESIAN, "cyl": S.CYLINDRICAL, "sph": S.SPHERICAL},
